@@ -1,70 +1,15 @@
-import Slock.Proofs.AckConsStep
-/-! M-ACK: the balance for journal delivery, reports and demotion; for every guarded event; for every guarded run. -/
+import Slock.Proofs.AckKOps4
+/-! M-ACK: the balance for journal delivery, reports and demotion; for every event; for every run. The one place where the balance needs
+more than the record-local invariant `QR` is the delivery of a LOCK record to the leader: `ProcessLeaderPushLock` arms the counter of the
+lock it points at, which keeps the balance only if that lock is dead or still waiting for it — `InvK.kj`, part of the counting invariant. -/
 namespace Slock.Ack
 
-theorem InvQ.dropEnt {db : DB} (h : InvQ db) (id : Nat) : InvQ (db.dropEnt id) := h.frame rfl rfl
-
-/-- an update that keeps a pending record pending (only the counter moves, within 0 … 254) -/
-theorem pendingKeep_cons (x : Rid) {db : DB} (hq : InvQ db) (hid : Nat) (a : Nat → Nat)
-    (hp : (db.getR hid).pending = true) (ha : a (db.getR hid).ack < NOACK) :
-    InvQ (db.modR hid (fun r => { r with ack := a r.ack })) ∧ openN x (db.modR hid (fun r => { r with ack := a r.ack })) = openN x db := by
-  have hpr := present_of (Or.inl hp)
-  have hm := (findR_some_mem hpr).1
-  have hqr := hq.getR hid
-  have hnq := not_queued_of_pending hqr hp
-  have hex := expried_of_pending hqr hp
-  have hpa : ({ (db.getR hid) with ack := a (db.getR hid).ack } : Rec).pending = true := by
-    unfold Rec.pending NOACK at *; simp; omega
-  constructor
-  · refine ⟨?_, hq.cfg⟩
-    intro r hr
-    rcases mem_modRecs hr with h | ⟨r0, hr0, e⟩
-    · exact hq.recs r h
-    · have : r0 = db.getR hid := by rw [hpr] at hr0; exact (Option.some.inj hr0).symm
-      subst this
-      rw [e]
-      exact QR_of (by intro _; simp only []; exact ⟨fun _ => hpa, fun hd => (hqr.1 ‹_›).2 hd⟩) (by simp [hex]) (by simp [hnq]) (by simp only []; unfold NOACK at *; omega)
-  · have h : openN x (db.modR hid (fun r => { r with ack := a r.ack })) =
-        openN x db + openR x ({ (db.getR hid) with ack := a (db.getR hid).ack } : Rec) - openR x (db.getR hid) :=
-      openN_modR_at x db hid _ hpr
-    have : openR x ({ (db.getR hid) with ack := a (db.getR hid).ack } : Rec) = openR x (db.getR hid) := by
-      rw [openR_eq, openR_eq, hpa, hp]
-    rw [this] at h
-    omega
-
-theorem leaderPushLock_cons (x : Rid) {db : DB} (ha : InvA db) (hq : InvQ db) (id hid : Nat)
-    (hg : db.leader = true → (db.getR hid).pending = true) :
-    InvQ (leaderPushLock db id hid).1 ∧ answered x (leaderPushLock db id hid).2 + openN x (leaderPushLock db id hid).1 = openN x db := by
-  unfold leaderPushLock
-  split
-  · exact ackDone_cons x ha hq hid false
-  · rename_i hl
-    split
-    · exact ackDone_cons x ha hq hid false
-    · have hl' : db.leader = true := by simpa using hl
-      have := pendingKeep_cons x hq hid (fun _ => reqAcks db.cfg) (hg hl') hq.cfg
-      simp only []
-      exact ⟨this.1.frame rfl rfl, by simp only [answered_nil, Int.zero_add]; exact (openN_frame x rfl).trans this.2⟩
-
-theorem leaderPushUnLock_cons (x : Rid) {db : DB} (ha : InvA db) (hq : InvQ db) (hid : Nat) :
-    InvQ (leaderPushUnLock db hid).1 ∧ answered x (leaderPushUnLock db hid).2 + openN x (leaderPushUnLock db hid).1 = openN x db := by
-  unfold leaderPushUnLock
-  split
-  · rename_i e _
-    have := ackDone_cons x (ha.dropEnt e.id) (hq.dropEnt e.id) hid false
-    exact ⟨this.1, by rw [this.2]; exact openN_frame x rfl⟩
-  · exact ⟨hq, by simp⟩
-
-theorem InvQ.popJ {db : DB} (h : InvQ db) (k : Nat) : InvQ (popJ db k) := h.frame rfl rfl
-
-theorem opPush_cons (x : Rid) {db : DB} (ha : InvA db) (hq : InvQ db) (k : Nat) (werr : Bool) (hg : pushOk db k = true) :
+theorem opPush_cons (x : Rid) {db : DB} (ha : InvA db) (hk : InvK db) (hq : InvQ db) (k : Nat) (werr : Bool) :
     InvQ (opPush db k werr).1 ∧ answered x (opPush db k werr).2 + openN x (opPush db k werr).1 = openN x db := by
   rw [opPush_eq]
-  unfold pushOk at hg
   split
   · exact ⟨hq, by simp⟩
   · rename_i j hj
-    simp only [hj] at hg
     have hjm : j ∈ db.journal := List.mem_of_find?_eq_some hj
     have ha1 := ha.popJ k
     have hq1 := hq.popJ k
@@ -72,7 +17,6 @@ theorem opPush_cons (x : Rid) {db : DB} (ha : InvA db) (hq : InvQ db) (k : Nat) 
     split
     · exact ⟨hq1, by simp; exact eo⟩
     · rename_i hid hh
-      simp only [hh] at hg
       have hgr : ∀ a, (popJ db k).getR a = db.getR a := fun a => getR_frame rfl a
       have h2 : InvA (if (popJ db k).leader = true then (if j.isLock = true then leaderPushLock (popJ db k) (popJ db k).nextId hid
             else leaderPushUnLock (popJ db k) hid) else (popJ db k, [])).1 ∧
@@ -87,9 +31,7 @@ theorem opPush_cons (x : Rid) {db : DB} (ha : InvA db) (hq : InvQ db) (k : Nat) 
           split
           · rename_i hil
             have hjr := ha.jrn j hjm hil hid hh
-            have hl0 : db.leader = true := hl
-            have hpend : (db.getR hid).pending = true := by simpa [hil, hl0] using hg
-            have := leaderPushLock_cons x ha1 hq1 (popJ db k).nextId hid (fun _ => by rw [hgr]; exact hpend)
+            have := leaderPushLock_cons x ha1 hq1 (popJ db k).nextId hid (fun _ hd => by rw [hgr] at hd ⊢; exact hk.pushGuard hjm hil hh hd)
             exact ⟨ha1.leaderPushLock _ _ hjr.1 (by rw [hgr]; exact hjr.2), this.1, by rw [this.2]; exact eo⟩
           · have := leaderPushUnLock_cons x ha1 hq1 hid
             exact ⟨ha1.leaderPushUnLock _, this.1, by rw [this.2]; exact eo⟩
@@ -194,20 +136,20 @@ def delta (x : Rid) : Ev → Int
   | .unlock c => hit x c.rid
   | _ => 0
 
-theorem step_cons (x : Rid) {db : DB} (ha : InvA db) (hq : InvQ db) (e : Ev) (hg : evOk db e = true) :
+theorem step_cons (x : Rid) {db : DB} (ha : InvA db) (hk : InvK db) (hq : InvQ db) (e : Ev) :
     InvQ (step db e).1 ∧ answered x (step db e).2 + openN x (step db e).1 = openN x db + delta x e := by
   cases e with
   | lock c => exact opLock_cons x ha hq c
-  | unlock c => exact opUnlock_cons x ha hq c hg
+  | unlock c => exact opUnlock_cons x ha hq c
   | tick =>
     show InvQ (opTick db).1 ∧ answered x (opTick db).2 + openN x (opTick db).1 = openN x db + 0
     have := opTick_cons x ha hq; exact ⟨this.1, by have := this.2; omega⟩
   | push k =>
     show InvQ (opPush db k false).1 ∧ answered x (opPush db k false).2 + openN x (opPush db k false).1 = openN x db + 0
-    have := opPush_cons x ha hq k false hg; exact ⟨this.1, by have := this.2; omega⟩
+    have := opPush_cons x ha hk hq k false; exact ⟨this.1, by have := this.2; omega⟩
   | pushW k =>
     show InvQ (opPush db k true).1 ∧ answered x (opPush db k true).2 + openN x (opPush db k true).1 = openN x db + 0
-    have := opPush_cons x ha hq k true hg; exact ⟨this.1, by have := this.2; omega⟩
+    have := opPush_cons x ha hk hq k true; exact ⟨this.1, by have := this.2; omega⟩
   | aofed id ok =>
     show InvQ (opAofed db id ok).1 ∧ answered x (opAofed db id ok).2 + openN x (opAofed db id ok).1 = openN x db + 0
     unfold opAofed
@@ -230,24 +172,32 @@ theorem step_cons (x : Rid) {db : DB} (ha : InvA db) (hq : InvQ db) (e : Ev) (hg
     show InvQ (opFailAll db o).1 ∧ answered x (opFailAll db o).2 + openN x (opFailAll db o).1 = openN x db + 0
     have := opFailAll_cons x ha hq o; exact ⟨this.1, by have := this.2; omega⟩
 
-/-- every event of the run passes its guard in the state it meets -/
-def Guarded : DB → List Ev → Prop
-  | _, [] => True
-  | db, e :: es => evOk db e = true ∧ Guarded (step db e).1 es
-
 def issued (x : Rid) : List Ev → Int
   | [] => 0
   | e :: es => delta x e + issued x es
 
-theorem runOut_cons (x : Rid) : ∀ (evs : List Ev) {db : DB}, InvA db → InvQ db → Guarded db evs →
-    InvQ (runOut db evs).1 ∧ answered x (runOut db evs).2.flatten + openN x (runOut db evs).1 = openN x db + issued x evs := by
+/-- the three invariants together (each step of one needs the others in the state before) -/
+structure Inv3 (db : DB) : Prop where
+  a : InvA db
+  k : InvK db
+  q : InvQ db
+
+theorem Inv3.step {db : DB} (h : Inv3 db) (e : Ev) : Inv3 (step db e).1 :=
+  ⟨h.a.step e, InvK.step h.a h.k h.q e, (step_cons ((0, 0) : Rid) h.a h.k h.q e).1⟩
+
+theorem Inv3.run {db : DB} (h : Inv3 db) (evs : List Ev) : Inv3 (run db evs) := by
+  unfold Slock.Ack.run
+  exact foldl_inv Inv3 (fun d e => (Slock.Ack.step d e).1) (fun d e hd => hd.step e) evs db h
+
+theorem runOut_cons (x : Rid) : ∀ (evs : List Ev) {db : DB}, Inv3 db →
+    Inv3 (runOut db evs).1 ∧ answered x (runOut db evs).2.flatten + openN x (runOut db evs).1 = openN x db + issued x evs := by
   intro evs
   induction evs with
-  | nil => intro db _ hq _; exact ⟨hq, by simp [runOut, issued]⟩
+  | nil => intro db h; exact ⟨h, by simp [runOut, issued]⟩
   | cons e es ih =>
-    intro db ha hq hg
-    have h1 := step_cons x ha hq e hg.1
-    have h2 := ih (ha.step e) h1.1 hg.2
+    intro db h
+    have h1 := step_cons x h.a h.k h.q e
+    have h2 := ih (h.step e)
     unfold runOut
     simp only [List.flatten_cons, issued]
     refine ⟨h2.1, ?_⟩
@@ -257,5 +207,8 @@ theorem runOut_cons (x : Rid) : ∀ (evs : List Ev) {db : DB}, InvA db → InvQ 
 
 theorem InvQ.init (cfg : Cfg) (now : Nat) (hc : reqAcks cfg < NOACK) : InvQ (DB.init cfg now) :=
   ⟨by intro r hr; simp [DB.init] at hr, hc⟩
+
+theorem Inv3.init (cfg : Cfg) (now : Nat) (hc : reqAcks cfg < NOACK) : Inv3 (DB.init cfg now) :=
+  ⟨InvA.init cfg now, InvK.init cfg now hc, InvQ.init cfg now hc⟩
 
 end Slock.Ack
